@@ -26,6 +26,7 @@ const (
 	mwFailCtx    // fails before calling next with an error that wraps a context error (its own backend call timed out)
 	mwStamp      // after next: when the result is a map, adds a member named after the request to it, in place
 	mwModReqCopy // like mwModReq, but hands a new request object (deep copy with the modified arguments) to the next stage
+	mwShortErr   // answers with a JSON-RPC error object of its own (code, message and data) without calling next
 	numMW
 )
 
@@ -41,15 +42,19 @@ type C15Case struct {
 	Split   int        `json:"split"` // the chain is given as WithMiddleware(chain[:split]...), WithMiddleware(chain[split:]...)
 	NSess   int        `json:"nsess"`
 	Batches [][]C15Req `json:"batches"` // requests inside one batch are sent concurrently
+	// Twin: a second server is built in the process from the same leading middlewares (the very same slice) followed by a
+	// middleware of its own: a server's chain is fixed when it is constructed, whatever is built from the caller's slices later
+	Twin bool `json:"twin,omitempty"`
 }
 
 func genC15(t *rapid.T) C15Case {
 	c := C15Case{Mode: Mode(rapid.IntRange(0, 5).Draw(t, "mode"))}
 	n := rapid.IntRange(0, 4).Draw(t, "chainlen")
 	for i := 0; i < n; i++ {
-		c.Chain = append(c.Chain, rapid.SampledFrom([]int{mwPass, mwPass, mwModReq, mwModReqCopy, mwModReqCopy, mwModRes, mwShort, mwFailBefore, mwFailAfter, mwFailCtx, mwStamp, mwStamp}).Draw(t, "mw"))
+		c.Chain = append(c.Chain, rapid.SampledFrom([]int{mwPass, mwPass, mwModReq, mwModReqCopy, mwModReqCopy, mwModRes, mwShort, mwShortErr, mwFailBefore, mwFailAfter, mwFailCtx, mwStamp, mwStamp}).Draw(t, "mw"))
 	}
 	c.Split = rapid.IntRange(0, n).Draw(t, "split")
+	c.Twin = rapid.IntRange(0, 2).Draw(t, "twin") == 0
 	c.NSess = rapid.IntRange(1, 3).Draw(t, "nsess")
 	nb := rapid.IntRange(1, 3).Draw(t, "nbatches")
 	for b := 0; b < nb; b++ {
@@ -123,6 +128,10 @@ func makeMW(i, kind int, rec *c15Rec) mcp.Middleware {
 			switch kind {
 			case mwShort:
 				return map[string]interface{}{"short": i}, nil
+			case mwShortErr:
+				e := &mcp.JSONRPCError{JSONRPC: "2.0", ID: req.ID}
+				e.Error.Code, e.Error.Message, e.Error.Data = -32042, fmt.Sprintf("mw%d-says-no", i), map[string]interface{}{"why": "quota", "mw": i}
+				return e, nil
 			case mwFailBefore:
 				return nil, fmt.Errorf("mw%d-failed", i)
 			case mwFailCtx:
@@ -188,6 +197,8 @@ func c15Predict(chain []int, hasHandlerMark bool, inner interface{}, innerCode i
 		switch chain[i] {
 		case mwShort:
 			return map[string]interface{}{"short": float64(i)}, 0, "", true
+		case mwShortErr:
+			return map[string]interface{}{"why": "quota", "mw": float64(i)}, -32042, fmt.Sprintf("mw%d-says-no", i), false
 		case mwFailBefore, mwFailCtx:
 			return nil, -32603, fmt.Sprintf("mw%d-failed", i), false
 		}
@@ -253,6 +264,21 @@ func execC15(c C15Case) *Failure {
 	}
 	w := NewWorld(c.Mode, reg, opt)
 	defer w.Close()
+	if c.Twin && len(mws) > 0 {
+		// another server of the process, built afterwards from the same leading middlewares plus one of its own
+		alien := func(next mcp.HandlerFunc) mcp.HandlerFunc {
+			return func(ctx context.Context, req *mcp.JSONRPCRequest) (mcp.JSONRPCMessage, error) {
+				rec.add(idKey(req.ID), "alien-before", sessIDs(ctx))
+				return next(ctx, req)
+			}
+		}
+		shared := mws[:c.Split]
+		if c.Mode == ModeLegacy {
+			_ = mcp.NewSSEServer("twin", "1", mcp.WithSSEServerLogger(nopLogger{}), mcp.WithKeepAlive(false), mcp.WithSSEMiddleware(shared...), mcp.WithSSEMiddleware(alien))
+		} else {
+			_ = mcp.NewServer("twin", "1", mcp.WithServerLogger(nopLogger{}), mcp.WithMiddleware(shared...), mcp.WithMiddleware(alien))
+		}
+	}
 	w.ToolHook = func(ctx context.Context, spec ToolSpec, req *mcp.CallToolRequest) { mark(ctx, "handler") }
 	twin := NewWorld(c.Mode, reg, WorldOpt{})
 	defer twin.Close()
@@ -373,7 +399,7 @@ func execC15(c C15Case) *Failure {
 			innerCode := 0
 			n := it.nonce
 			for i, k := range c.Chain {
-				if k == mwShort || k == mwFailBefore || k == mwFailCtx {
+				if k == mwShort || k == mwShortErr || k == mwFailBefore || k == mwFailCtx {
 					break
 				}
 				if k == mwModReq || k == mwModReqCopy {
@@ -442,6 +468,9 @@ func execC15(c C15Case) *Failure {
 				msg, _ := e["message"].(string)
 				if e == nil || int(cf) != wantCode || (wantMsg != "" && !strings.Contains(msg, wantMsg)) {
 					return Failf("C15/outcome", "%s: want error %d %q, got %.300s", where, wantCode, wantMsg, it.ex.Frames[0])
+				}
+				if wantCode == -32042 && canonJSON(e["data"]) != canonJSON(wantRes) {
+					return Failf("C15/outcome", "%s: the middleware's error object carried data %s, the client received %.300s", where, canonJSON(wantRes), it.ex.Frames[0])
 				}
 			} else {
 				r, ok := m["result"]
